@@ -76,8 +76,9 @@ inductive Item where
   /-- `visitCallTag`, first lines: `start_source(l)` (since 2159d82), `def ccall(caller):` -/
   | callHead (l : Nat)
   /-- `visitCallTag` after `write_def_finish`: `None`, `return […]`, `None`, `start_source(l)` (since
-      2159d82), the `nextcaller = … ccall(…)` line, `try:`, `start_source(l)`, the call itself, `finally:`,
-      `nextcaller = None`, `None` -/
+      2159d82), `__M_nextcaller = context.caller_stack.nextcaller` (since 555117c), the
+      `nextcaller = … ccall(…)` line, `try:`, `start_source(l)`, the call itself, `finally:`,
+      `nextcaller = __M_nextcaller`, `None` -/
   | callTail (l : Nat)
   /-- `visitTextTag` with a filter: `_push_writer`, `try:` -/
   | textTagHead
@@ -126,7 +127,7 @@ def emit : Item → List Event
       ++ (if returns then [line l retObs] else [line l true, quiet])
   | .callHead l => [.startSource l, quiet]
   | .callTail l =>
-    [dedent, quiet, dedent, .startSource l, line l true, quiet, .startSource l, line l true, quiet, quiet, dedent]
+    [dedent, quiet, dedent, .startSource l, quiet, line l true, quiet, .startSource l, line l true, quiet, quiet, dedent]
   | .textTagHead => [quiet, quiet]
   | .textTagTail l => [.startSource l, quiet, quiet, line l true, dedent]
   | .cacheHead l hdrObs => [.startSource l, quiet, line l hdrObs]
